@@ -31,6 +31,17 @@ Statements:
   ["later"]                             try: PrivVal(5).assert_eq(7) ... records whether the false assertion was rejected
   ["breakif", cond]                     try: _breakif(cond) / except AttributeError: refused (nothing changes) / else: accepted
   ["probe", label]                      conjunction probe (see below)
+  ["failclose", form, kind, cond, names]  a block statement with a step that FAILS BETWEEN the library's exit() of one arm / iteration and
+                                        the enter() of the next, SURVIVED by the caller (try/except around the switching call and the
+                                        arm it would have opened), who then CLOSES the statement as usual (`_endif` / `_endwhile` /
+                                        `_endfor`, whose own bookkeeping error, if any, is caught too).  form `if`: `_if(cond)`, body,
+                                        then kind = `elif-thunk-raises` (`_elif(lambda: <raises KeyError(7)>)`), `elif-thunk-lookup`,
+                                        `elif-condition-overflows` (comparison outside the bit length: raises in live code only),
+                                        `else-guard-rejected` (`_if(1)`: the complement -2 is refused by add_guard when `_else()` enters
+                                        it), `elif-not-callable` (refused before anything happens: control), `elif-ok` (control);
+                                        form `while` / `for`: the body assigns a new name in iteration 0, so the SECOND evaluation of the
+                                        loop condition raises "conditional write to undefined variables".  The triple is probed before the
+                                        statement and after its closing call (probe tag `closed-after-failed-switch` / `closed-normally`)
 cond: ["B", v] = PrivValBool(v) | ["C", a, b] = PrivVal(a) < PrivVal(b)
 
 Conjunction probes.  Next to the real run the rendered source keeps a PLAIN-PYTHON model of the nesting (`ST.m`): one 0/1
@@ -74,6 +85,7 @@ class State:
         self.m = []                         # plain-Python model of the nesting: [kind, value, any-earlier-arm, block id]
         self.one0 = LinComb.ONE
         self.report["cprobes"] = []; self.report["breakif"] = []
+        self.failures = {}                  # `failclose` statements: what their switching / closing calls raised
 
     # ---- the plain-Python model of the enclosing conditions
     def m_push(self, kind, v, blk=None): self.m.append([kind, int(bool(v)), int(bool(v)), blk])
@@ -141,6 +153,79 @@ class State:
         self.phase = ("body", self.open[-1] if self.open else None, None)
 
 
+    def boom(self):
+        raise KeyError(7)
+
+    def stmt_failed(self, n, exc, where):
+        self.failures.setdefault(n, []).append(f"{where}: {type(exc).__name__}: {str(exc)[:80]}")
+
+    def leave_stmt(self, snap, n, kind):
+        """after the closing call of a `failclose` statement: the triple must be the one from before the statement"""
+        before, ident = snap[0], snap[1]
+        after = triple(self.p)
+        same = after == before and identity() == ident
+        fl = self.failures.get(n, [])
+        switch_failed = any(x.startswith("switch") for x in fl)
+        self.report["probes"].append({"tag": "closed-after-failed-switch" if switch_failed else "closed-normally", "restored": same,
+                                      "before": before, "after": after, "objects_differ_only": after == before and not same,
+                                      "exc": " / ".join(fl) or None, "call": kind, "unwound_blocks": 0})
+
+
+FAIL_SWITCH = {
+    "elif-thunk-raises": "_elif(lambda: ST.boom(), ctx=_)",
+    "elif-thunk-lookup": "_elif(lambda: {1: PrivValBool(1)}[7], ctx=_)",
+    "elif-condition-overflows": "_elif(lambda: PrivVal(300) < PrivVal(5), ctx=_)",
+    "else-guard-rejected": "_else(ctx=_)",
+    "elif-not-callable": "_elif(PrivValBool(1), ctx=_)",
+    "elif-ok": "_elif(lambda: PrivValBool(1), ctx=_)",
+}
+
+
+def render_failclose(s, pad, out, n):
+    form, kind, c, names = s[1], s[2], s[3], s[4]
+    out.append(f"{pad}fsnap{n} = ST.enter_try()")
+    sets = lambda ind, v: [f"{pad}{'    ' * ind}_.{nm} = PrivVal({v})" for nm in names] or [f"{pad}{'    ' * ind}pass"]
+    if form == "if":
+        pub1 = kind == "else-guard-rejected"
+        out.append(f"{pad}_if({'1' if pub1 else cond_src(c)}, ctx=_); ST.m_push('if', {1 if pub1 else cond_val(c)})")
+        out.extend(sets(0, 4))
+        out.append(f"{pad}try:")
+        out.append(f"{pad}    {FAIL_SWITCH[kind]}")
+        out.extend(sets(1, 5))
+        out.append(f"{pad}except BaseException as fexc{n}:")
+        out.append(f"{pad}    ST.stmt_failed({n}, fexc{n}, 'switch')")
+        close = "_endif"
+    elif form == "while":
+        out.append(f"{pad}fk{n} = 0")
+        out.append(f"{pad}try:")
+        out.append(f"{pad}    while _while({cond_src(c)}, ctx=_) and fk{n} < 2:")
+        out.append(f"{pad}        if fk{n} == 0: _.{kind.split(':')[1]} = PrivVal(3)")
+        out.extend(sets(2, 6))
+        out.append(f"{pad}        fk{n} += 1")
+        out.append(f"{pad}except BaseException as fexc{n}:")
+        out.append(f"{pad}    ST.stmt_failed({n}, fexc{n}, 'switch')")
+        out.append(f"{pad}ST.m_push('loop', 1)")
+        close = "_endwhile"
+    else:
+        stop = f"PrivVal({int(c[1])})" if isinstance(c, list) else str(int(c))
+        out.append(f"{pad}fk{n} = 0")
+        out.append(f"{pad}try:")
+        out.append(f"{pad}    for fi{n} in _range({stop}, max=2, ctx=_):")
+        out.append(f"{pad}        if fk{n} == 0: _.{kind.split(':')[1]} = PrivVal(3)")
+        out.extend(sets(2, 6))
+        out.append(f"{pad}        fk{n} += 1")
+        out.append(f"{pad}except BaseException as fexc{n}:")
+        out.append(f"{pad}    ST.stmt_failed({n}, fexc{n}, 'switch')")
+        out.append(f"{pad}ST.m_push('loop', 1)")
+        close = "_endfor"
+    out.append(f"{pad}try:")
+    out.append(f"{pad}    {close}(ctx=_)")
+    out.append(f"{pad}except BaseException as fexc{n}:")
+    out.append(f"{pad}    ST.stmt_failed({n}, fexc{n}, 'close')")
+    out.append(f"{pad}ST.m_pop()")
+    out.append(f"{pad}ST.leave_stmt(fsnap{n}, {n}, {kind!r})")
+
+
 def cond_src(c):
     if c[0] == "B":
         return f"PrivValBool({int(c[1])})"
@@ -169,6 +254,9 @@ def render(stmts, ind, out, ctr, loopvar=None):
             out.append(f"{pad}raise Boom()")
         elif t == "probe":
             out.append(f"{pad}ST.cprobe({s[1]!r})")
+        elif t == "failclose":
+            ctr[0] += 1
+            render_failclose(s, pad, out, ctr[0])
         elif t == "breakif":
             out.append(f"{pad}try:")
             out.append(f"{pad}    _breakif({cond_src(s[1])}, ctx=_)")
